@@ -352,7 +352,9 @@ class BehavioralRTLIRToVVisitorL1( bir.BehavioralRTLIRNodeVisitor ):
           return one_bit_template.format( **locals() )
 
     elif isinstance( node.value, bir.Index ):
-      _one_bit = True
+      # An index is a one-bit selection only if it selects a bit of a
+      # vector; an element of an array or a packed array is a whole value.
+      _one_bit = ( current_nbits == 1 )
     else:
       _one_bit = False
 
